@@ -109,8 +109,9 @@ def plan(ctx: Ctx):
             else:
                 cfg.update({k: first[k] for k in ("prefix", "em_col", "later", "cache_later", "new_city", "max_iterations")})
             try:
-                lk, _api, _ = X.build(cfg)
-                X.later_ops(lk, cfg)
+                err = _in_child(_try_config, cfg)     # never touch DuckDB in this process: workers are forked from it
+                if err:
+                    raise RuntimeError(err)
                 if attempt:
                     ctx.hist("configurations_redrawn", cfg["id"])
                 return cfg
@@ -150,6 +151,22 @@ def plan(ctx: Ctx):
                         out.append((cfgv(backend, lt, retain, i), lambda sc: True, lambda sc: 1))
                         i += 1
     return out
+
+
+def _try_config(cfg):
+    from harness import c08_x as X
+    try:
+        lk, _api, _ = X.build(cfg)
+        X.later_ops(lk, cfg)
+        return None
+    except Exception as e:      # noqa: BLE001
+        return f"{type(e).__name__}: {str(e)[-300:]}"
+
+
+def _in_child(fn, arg):
+    import multiprocessing as mp
+    with mp.get_context("fork").Pool(1) as pool:
+        return pool.apply(fn, (arg,))
 
 
 WORKERS = int(os.environ.get("C08_WORKERS", "4"))
